@@ -43,14 +43,31 @@ func checkSegCase(c segCase) (msg string, bad bool, nontrivial bool) {
 	}
 	nontrivial = lcpHasPartialDescent(lcp, c.MinLen, c.MaxLen)
 	pairs := append(append([][2]int(nil), c.Before...), [2]int{c.MinLen, c.MaxLen})
+	// The tables live in one allocation, the way a caller with an arena lays
+	// them out: lcp | sa | guard words. The slices handed over have spare
+	// capacity that reaches into what follows them; nothing behind their
+	// length belongs to Segments.
+	const guard = 3
+	arena := make([]int32, 2*n+guard)
+	lcpArg := arena[:n]
+	copy(lcpArg, lcp)
 	for ci, pr := range pairs {
 		var calls []segCall
 		// sa may be permuted by Segments (documented); lcp is the caller's
 		// table and is handed over again as it is.
-		saArg := append([]int32(nil), sa...)
-		suffix.Segments(saArg, lcp, pr[0], pr[1], func(m int, seg []int32) {
+		saArg := arena[n : 2*n]
+		copy(saArg, sa)
+		for i := 0; i < guard; i++ {
+			arena[2*n+i] = int32(-7770 - i)
+		}
+		suffix.Segments(saArg, lcpArg, pr[0], pr[1], func(m int, seg []int32) {
 			calls = append(calls, segCall{m, append([]int32(nil), seg...)})
 		})
+		for i := 0; i < guard; i++ {
+			if arena[2*n+i] != int32(-7770-i) {
+				return fmt.Sprintf("call %d (minLen=%d, maxLen=%d): Segments wrote behind the end of the suffix array it was given (word %d behind it is now %d)", ci+1, pr[0], pr[1], i, arena[2*n+i]), true, nontrivial
+			}
+		}
 		if pr[1] < pr[0] {
 			// outside the property's quantifier (0 <= minLen <= maxLen): only
 			// "nothing panics" is checked
